@@ -1,4 +1,5 @@
 import Gmx.Lemmas.Router
+import Gmx.Lemmas.RouterInv
 /-!
 # C44 — multi-market swaps follow the declared path and move recorded balances
 -/
@@ -204,6 +205,17 @@ theorem routerSwap_follows_paths {into : Bool} {s s' : RState} {p₁ p₂ : List
             obtain ⟨h₁, t1, m1, c1⟩ := side hr1
             obtain ⟨h₂, t2, m2, c2⟩ := side hr2
             exact ⟨h₁, h₂, by rw [t2, t1], m1, m2, c1, c2⟩
+
+/-- **every hop moves exactly the swapped amount between the recorded balances of the markets
+involved**: for every token, the sum of the recorded balances over the current market and all
+provided markets (distinct market tokens, as `SwapMarkets::new` enforces) is unchanged by a
+successful action swap — hand-overs only move balance from one market to the next. -/
+theorem routerSwap_conserves_recorded {into : Bool} {s s' : RState} {p₁ p₂ : List Nat} {e : Nat × Nat}
+    {ti : Option Nat × Option Nat} {am : Nat × Nat} {o₁ o₂ : Nat}
+    (hnd : (s.markets.map (·.token)).Nodup)
+    (h : routerSwap into s p₁ p₂ e ti am = some (s', o₁, o₂)) (t : Nat) :
+    rtotal s' t = rtotal s t ∧ s'.markets.map (·.token) = s.markets.map (·.token) :=
+  routerSwap_preserves (conserved_inv t (rtotal s t) _ hnd) h ⟨rfl, rfl⟩
 
 /-! ### Non-vacuity: a three-hop swap out of the current market (0) through markets 1 and 2 -/
 example : (routerSwap false
